@@ -123,8 +123,8 @@ package generic
 //@ func (*Driver).executeCallback [C18]
 //@   requires 0 <= i && i < len(callbacks) && callbacks[i] != nil && !recursed
 //@   ensures #once-never-runs-twice old(callbacks[i].Once) && old(callbacks[i].triggered) ==> result.1 != nil && isErr(result.1, util.ErrOperationError) && cbRuns == old(cbRuns) && !recursed
-//@   at call dyn#1 assert #callback-runs-with-the-accumulated-output arg1 == b && arg0 == d && cb == callbacks[i] && (cb.Once ==> cb.triggered && !old(callbacks[i].triggered))
-//@   at call handleCallbacks#1 assert #waiting-goes-on-only-when-not-complete !cb.Complete && arg0 === callbacks && arg2 == fb
-//@   at call handleCallbacks#1 assert #reset-output-and-next-timeout arg1 == (cb.ResetOutput ? "" : b) && arg3 == (cb.NextTimeout != 0 ? cb.NextTimeout : t)
+//@   at call dyn#1 assert #callback-runs-with-the-accumulated-output arg1 == old(b) && arg0 == d && cb == old(callbacks)[old(i)] && (cb.Once ==> cb.triggered && !old(callbacks[i].triggered))
+//@   at call handleCallbacks#1 assert #waiting-goes-on-only-when-not-complete !cb.Complete && arg0 === old(callbacks) && arg2 == old(fb)
+//@   at call handleCallbacks#1 assert #reset-output-and-next-timeout arg1 == (cb.ResetOutput ? "" : old(b)) && arg3 == (cb.NextTimeout != 0 ? cb.NextTimeout : old(t))
 //@   ensures #complete-ends-the-operation-with-the-whole-dialogue result.1 == nil && !recursed ==> result.0 == fb
 //@   ensures #a-failing-callback-ends-the-operation-with-its-error !recursed && result.1 != nil ==> len(result.0) == 0
